@@ -12,10 +12,9 @@ func main() {
 	seed := flag.Uint64("seed", 1, "PRNG seed")
 	n := flag.Int("n", 40, "size parameter (meaning depends on the subcommand)")
 	keys := flag.String("keys", "/verif/work/keys", "directory caching RSA keys and certificates")
+	ops := flag.Int("ops", 60, "operations per worker goroutine (c34)")
 	sizes := flag.String("sizes", "2048", "comma separated RSA key sizes in bits (c37)")
 	flag.Parse()
-	_ = seed
-	_ = n
 	var sz []int
 	for _, s := range strings.Split(*sizes, ",") {
 		if v, err := strconv.Atoi(s); err == nil {
@@ -25,6 +24,8 @@ func main() {
 	switch flag.Arg(0) {
 	case "c37":
 		c37(*keys, sz, flag.Args()[1:])
+	case "c34":
+		c34(*seed, *n, *ops)
 	default:
 		fmt.Fprintln(os.Stderr, "usage: sysharness [-seed N] [-n N] c37|c34|c28|c36 ...")
 		os.Exit(2)
